@@ -5,7 +5,14 @@ import sysfam, qsys
 
 
 def run(ck):
-    sysfam.run_family(ck, "C17", 60 if ck.tier == "quick" else 1500)
+    def extra(rng):
+        # registry concurrency family on the shadow-Spinlock build
+        out = []
+        for i in range(40 if ck.tier == "quick" else 800):
+            sc, g = sysfam.c17reg(rng, "UBS:4096:16384")
+            out.append((f"c17reg-{i}", "UBS:4096:16384", sc, g))
+        return out
+    sysfam.run_family(ck, "C17", 60 if ck.tier == "quick" else 1500, extra)
 
 
 def replay(ck, path):
